@@ -49,6 +49,18 @@ Theorem C21_class_suffices : FunExt -> forall UK UB k q,
 Proof. exact indep_queue. Qed.
 Print Assumptions C21_class_suffices.
 
+(* a write that the queued path refuses after its body was consumed (declared digest does not match:
+   ErrBadDigest from inside the outbox transaction, which is rolled back) leaves NO entry and changes
+   nothing: it can never be replayed.  (On the write-through path the inner storage refuses it:
+   covered by C21_read_after_write, the call's model leaves the storage unchanged.) *)
+Theorem C21_refused_write_leaves_no_entry : forall UK UB s c ps,
+  rejects c = true -> route (inner s) c = (None, ps) ->
+  step UK UB s (OCall c) = (s, ResCall (Some BadDigest)) /\ accepts s (OCall c) = [].
+Proof.
+  intros UK UB s c ps R Ro. cbn [step accepts]. rewrite Ro, R. split; reflexivity.
+Qed.
+Print Assumptions C21_refused_write_leaves_no_entry.
+
 (* once the outbox is drained the inner storage is exactly the fold of the accepted writes, in
    acceptance order, applied directly *)
 Theorem C21_drained_eq_sequential : FunExt -> forall UK UB ops,
@@ -185,6 +197,20 @@ Example C21_ex_complete_inm_after_queued_put :
   snd (run [B"k"] [B"b"] init_state ex_mp) =
     [ResCall None; ResWorker (Some None); ResCall None; ResCall None; ResCall None; ResBlocked;
      ResWorker (Some None); ResCall (Some PreconditionFailed)].
+Proof. split; reflexivity. Qed.
+
+(* DeleteObjects mixing an If-Match entry on a settled key with a plain entry for a key whose put is still
+   queued: the batch waits for the whole bucket, the delete acknowledged after the put wins; a put
+   with a wrong digest is refused and leaves no entry *)
+Definition ex_batch : list op :=
+  [OCall (CCreate B"b"); OCall (ex_p 1); OWork; OWork;
+   OCall (CPut B"b" B"k2" 2 None ex_o0); OCall (CBadDigest (BPut B"b" B"k2"));
+   OCall (CDelsC B"b" [(B"k", Some (Some 1%N)); (B"k2", None)]); OWork; OJoin; ORead (RList B"b")].
+Example C21_ex_batch_delete_and_refused_put :
+  snd (run [B"k"; B"k2"] [B"b"] init_state ex_batch) =
+    [ResCall None; ResCall None; ResWorker (Some None); ResWorker (Some None);
+     ResCall None; ResCall (Some BadDigest); ResBlocked; ResWorker (Some None); ResCall None; ResKeys []] /\
+  length (queue (state_after [B"k"; B"k2"] [B"b"] ex_batch)) = 0.
 Proof. split; reflexivity. Qed.
 
 Example C21_ex_blocked_then_served :
